@@ -45,6 +45,17 @@ def check_equivalent(ctx, h, p, L, w=None, where=""):
     ctx.equal(p, p0, "equivalent_layers modified p")
     if w is not None:
         ctx.equal(w, w0, "equivalent_layers modified w")
+    # "returns exactly L layers" whatever the caller's floating-point error state and warning filters are (programs that
+    # run with numpy.seterr(all='raise') or -W error are still callers): no 0/0 on the way, even for an empty slab
+    try:
+        with warnings.catch_warnings():
+            warnings.simplefilter("error")
+            with np.errstate(all="raise"):
+                strict = pc.equivalent_layers(h, p, L) if w is None else pc.equivalent_layers(h, p, L, w=w)
+    except (FloatingPointError, RuntimeWarning) as e:
+        ctx.require(False, "equivalent_layers%s (N=%d, L=%d) does not return under numpy.seterr(all='raise') / warnings as errors: %s: %s" % (where, len(h), L, type(e).__name__, str(e)[:100]))
+    for a_, b_ in zip(strict, out):
+        ctx.equal(np.asarray(a_), np.asarray(b_), "equivalent_layers%s returns something else under numpy.seterr(all='raise')" % where, nan_ok=True)
     ctx.require(len(out) == (2 if w is None else 3), "equivalent_layers returned %d arrays" % len(out))
     hl, cl = np.asarray(out[0]), np.asarray(out[1])
     ctx.require(hl.shape == (L,) and cl.shape == (L,), "equivalent_layers%s: %d layers returned, expected exactly L=%d" % (where, len(cl), L))
